@@ -49,6 +49,7 @@ PROBES = [
     "buffer_flush_mid_stream",
     "single_record_patch",
     "sequential_path",
+    "narrow_coordinate_dtype",
 ]
 REAL_VS_STUB = dict(
     real="yaw readers/DataChunk/split/CatalogWriter/PatchWriter/load_patches, numpy, pandas, astropy.io.fits, h5py, pyarrow, tmpfs",
@@ -87,6 +88,7 @@ def gen_case(prng: Prng, tier: str) -> dict:
             has_z=prng.chance(1, 2),
             w_dtype=prng.choice(["f8", "f8", "f4", "i4"]),
             z_dtype=prng.choice(["f8", "f8", "f4"]),
+            coord_dtype=prng.choice(["f8", "f8", "f4", "i4"]),
             degrees=prng.chance(3, 4) if source != "random" else True,
         ),
         source=source,
@@ -142,7 +144,7 @@ def shrinks(case: dict):
             c = copy.deepcopy(case)
             c["data"][key] = False
             yield c
-    for key, simple in (("w_dtype", "f8"), ("z_dtype", "f8"), ("degrees", True), ("region", "box")):
+    for key, simple in (("w_dtype", "f8"), ("z_dtype", "f8"), ("coord_dtype", "f8"), ("degrees", True), ("region", "box")):
         if d.get(key) != simple and not (key == "degrees" and case["source"] == "random"):
             c = copy.deepcopy(case)
             c["data"][key] = simple
@@ -190,6 +192,8 @@ def evaluate(case: dict, o: dict) -> tuple[dict | None, str | None, dict]:
         probes["chunk_larger_than_input"] = 1
     if case["workers"] == 1:
         probes["sequential_path"] = 1
+    if d.get("coord_dtype", "f8") != "f8" and case["source"] != "random":
+        probes["narrow_coordinate_dtype"] = 1
     if cs is not None and case["workers"] > min(cs, n):
         probes["workers_gt_subchunks"] = 1
     if case.get("buffersize") in (1, 7) and n > 7:
